@@ -693,6 +693,48 @@ func (s *machine) respond(t world.TB, kind, via string, ref uint64) {
 	world.Label("response/" + kind + "/" + via)
 }
 
+// responseAfterEntityLeft (peer connections): the peer announces the entity of an unanswered request's destination
+// as removed, THEN its response to that request arrives (it was on its way), then the entity is announced again.
+// The response references the counter all the same: it re-enables sending.
+func (s *machine) responseAfterEntityLeft(t *rapid.T) {
+	if s.c.kind != "peer" {
+		t.Skip("direct sender: no peer tree")
+	}
+	var cands []uint64
+	for _, c := range s.m.unansweredCounters() {
+		if w := s.m.byCtr[c]; w != nil && w.request && w.d.Header.AddressDestination != nil && len(w.d.Header.AddressDestination.Entity) == 1 && w.d.Header.AddressDestination.Entity[0] == 2 {
+			cands = append(cands, c)
+		}
+	}
+	if len(cands) == 0 {
+		t.Skip("no unanswered request to a feature of entity [2]")
+	}
+	ref := cands[rapid.IntRange(0, len(cands)-1).Draw(t, "request")]
+	var ent world.EntSpec
+	for _, e := range s.c.p.Ents {
+		if len(e.Addr) == 1 && e.Addr[0] == 2 {
+			ent = e
+		}
+	}
+	if ent.Addr == nil {
+		t.Skip("the peer has no entity [2]")
+	}
+	notify := func(change model.NetworkManagementStateChangeType, e world.EntSpec) {
+		cmd := model.CmdType{Function: util.Ptr(model.FunctionTypeNodeManagementDetailedDiscoveryData), Filter: []model.FilterType{*model.NewFilterTypePartial()},
+			NodeManagementDetailedDiscoveryData: s.c.p.DiscoveryData([]world.EntSpec{e}, &change)}
+		s.c.p.Send(s.c.p.Msg(model.CmdClassifierTypeNotify, s.c.p.NM(), world.LocalNM(), false, nil, cmd))
+		s.c.sync()
+	}
+	notify(model.NetworkManagementStateChangeTypeRemoved, world.EntSpec{Addr: ent.Addr, Type: ent.Type})
+	s.absorb(t)
+	s.log("peer announces entity [2] as removed")
+	s.respond(t, "unanswered", "inbound-result", ref)
+	notify(model.NetworkManagementStateChangeTypeAdded, ent)
+	s.absorb(t)
+	s.log("peer announces entity [2] again")
+	world.Label("response/after-its-entity-was-removed")
+}
+
 // notify sends one notification and, if probe is set, looks it up at the moment it is written
 // (the peer may answer immediately, so the datagram must be retrievable from then on).
 func (s *machine) doNotify(t world.TB, via string, l int, id, val int, probe bool) {
@@ -1119,6 +1161,7 @@ func TestSenderSequential(t *testing.T) {
 			"inbound":  s.inbound,
 			"burst":    s.burst,
 			"reissue":  s.reissue,
+			"respLate": s.responseAfterEntityLeft,
 		})
 		s.verifyWindow(t, rapid.Bool().Draw(t, "finalNewestFirst"))
 		nt := s.nontrivial()
